@@ -604,6 +604,36 @@ func c13xSuite(r *Result, rng *rand.Rand, tier string) {
 		cases = append(cases, c13xRandom(rng, maxN))
 	}
 	done := map[string]bool{}
+	var tieOps [][]interface{}
+	var tieReal []string
+	var tieCase []c13xCase
+	defer func() {
+		outs, err := AskLean(tieOps)
+		if err != nil {
+			r.Violate(Violation{Kind: "correspondence", Suite: "compound", Note: err.Error()})
+			return
+		}
+		for i, o := range outs {
+			r.CorrCompared++
+			ok := false
+			if tieOps[i][0] == "hooks.batches" {
+				ok = canonRaw(o) == tieReal[i]
+			} else {
+				var alts []json.RawMessage
+				_ = json.Unmarshal(o, &alts)
+				for _, a := range alts {
+					if canonRaw(a) == tieReal[i] {
+						ok = true
+					}
+				}
+			}
+			r.H("x.tie", fmt.Sprint(tieOps[i][0], "/", tieOps[i][1]))
+			if !ok {
+				r.Violate(Violation{Kind: "correspondence", Suite: "compound", Input: tieCase[i], Observed: tieReal[i], Expected: canonRaw(o),
+					Note: "real parent-table event list is not one of the runs Lean derives from Gen.finishers (runsOf/compoundEvents/batchRanges)"})
+			}
+		}
+	}()
 	for i, c := range cases {
 		if expired() {
 			break
@@ -637,6 +667,16 @@ func c13xSuite(r *Result, rng *rand.Rand, tier string) {
 			r.Sample(map[string]interface{}{"input": c, "events": c13xShorts(base.Events)})
 		}
 		c13xReport(r, c, base, v)
+		if op, real := c13xTie(c, base); op != nil {
+			tieOps = append(tieOps, op)
+			tieReal = append(tieReal, canon(real))
+			tieCase = append(tieCase, c)
+			if c.Op == "create" && c.Via != "" && c.Shape != "single" {
+				tieOps = append(tieOps, []interface{}{"hooks.batches", c.N, c.Batch})
+				tieReal = append(tieReal, canon(base.Batches))
+				tieCase = append(tieCase, c)
+			}
+		}
 		if v != "" || c.Skip != "" {
 			continue
 		}
@@ -700,6 +740,84 @@ func c13xSuite(r *Result, rng *rand.Rand, tier string) {
 			}
 		}
 	}
+}
+
+// ---- correspondence: Lean runsOf/compoundEvents over the regenerated finisher facts vs the real log ------------
+
+// c13xTie returns (lean op, real parent-table event list) for a failure-free, hook-running case, or nil.
+func c13xTie(c c13xCase, obs c13xObs) ([]interface{}, [][]interface{}) {
+	if c.Skip != "" || c.FailAt != "" || c.FailStmt != 0 || obs.Err != "" {
+		return nil, nil
+	}
+	fn, n, batch := "", c.N, 0
+	hooks := append([]string{}, allHooks...)
+	byAppearance := false
+	if c.Shape == "single" {
+		n = 1
+	}
+	switch c.Op {
+	case "create":
+		fn = "DB.Create"
+		if c.Via != "" && c.Shape != "single" {
+			batch = c.Batch
+		}
+		if c.Via == "inbatches" {
+			fn = "DB.CreateInBatches"
+		}
+	case "save":
+		fn = "DB.Save"
+	case "firstorcreate":
+		fn = "DB.FirstOrCreate"
+		if c.Keys[0] == "missing" {
+			hooks = hooks[:len(hooks)-1] // AfterQuery is guarded by RowsAffected > 0 (uninterpreted in the model)
+		}
+	case "updates":
+		fn = "DB.Updates"
+		if c.Via == "update" {
+			fn = "DB.Update"
+		}
+	case "delete":
+		fn = "DB.Delete"
+	case "find":
+		byAppearance = true
+		switch c.Via {
+		case "find":
+			fn = "DB.Find"
+		case "first":
+			fn, n = "DB.First", 1
+		case "take":
+			fn, n = "DB.Take", 1
+		case "last":
+			fn, n = "DB.Last", 1
+		default:
+			return nil, nil
+		}
+		if c.N == 0 {
+			return nil, nil
+		}
+	}
+	real := [][]interface{}{}
+	seen := map[string]int{}
+	for _, e := range obs.Events {
+		if e.Table != "hxparent" {
+			continue
+		}
+		if e.isStmt() {
+			real = append(real, []interface{}{"stmt"})
+			continue
+		}
+		idx := 0
+		if byAppearance || c.Op == "firstorcreate" {
+			if _, ok := seen[e.Name]; !ok {
+				seen[e.Name] = len(seen)
+			}
+			idx = seen[e.Name]
+		} else {
+			fmt.Sscanf(strings.TrimPrefix(e.Name, "p"), "%d", &idx)
+		}
+		real = append(real, []interface{}{e.Kind, idx})
+	}
+	return []interface{}{"hooks.compound", fn, hooks, n, batch}, real
 }
 
 func c13xSortedInts(m map[int]bool) []int {
